@@ -159,7 +159,10 @@ CLAIMS = {
                 'C14_functions_from_text / C14_calls_from_text (FunParse.v, FunAddr.v): from the path TEXT, `$` steps `.f()` `.g()` with any chain of '
                 'name/index/wildcard/slice/union steps (each possibly after `..`) and registered filter functions parses, returns g(f(v)) for each '
                 'value v the steps reach in the order they reach them (a value a function fails on is dropped; an error when none is left) and '
-                'its call log is exactly f on each v then g on what f returned, left to right until one fails; the harness sends such texts '
+                'its call log is exactly f on each v then g on what f returned, left to right until one fails; C14_aggregate_from_text / '
+                'C14_aggregate_calls_from_text (AggParse.v, AggAddr.v): with a registered aggregate first, it is called exactly once with all the '
+                'values the steps reach (or the elements of the array a single-valued path reaches), never when they reach nothing, its result '
+                'is the single result and the filter functions after it apply left to right; the harness sends such texts '
                 '(the driver confirms they are Coq chain_fun_path) with calls and results expected from walking the document. The driver also '
                 'compares the model call log with the specification call log on every generated case. Functions inside filter operands '
                 '(short-circuited by design) are outside the theorem and compared with the model call by call; direct protocol oracle '
